@@ -1,0 +1,41 @@
+//go:build verif
+
+package parse
+
+// Contracts for govc (contract-based deductive verification, see /verif/DESIGN.md).
+// This file contains comments only and is compiled only with the build tag `verif`.
+
+// C12: scope projection. With no scope both projections are offered; with a scope list exactly the listed
+// projections are present; a scope the modifier does not implement, or an unknown scope word, rejects the modifier.
+//@ pred inScope(scope []ModifierType, w ModifierType) = exists i int :: 0 <= i && i < len(scope) && scope[i] == w
+//@ func NewResult
+//@   serves C12
+//@   modifies nothing
+//@   ensures[error-returns-nothing] result1 != nil ==> result0 == nil
+//@   ensures[no-scope-offers-both-projections] scope == nil ==> result1 == nil && result0 != nil &&
+//@        (typeis(mod, martian.RequestModifier) ==> result0.reqmod == mod) && (!typeis(mod, martian.RequestModifier) ==> result0.reqmod == nil) &&
+//@        (typeis(mod, martian.ResponseModifier) ==> result0.resmod == mod) && (!typeis(mod, martian.ResponseModifier) ==> result0.resmod == nil)
+//@   ensures[request-projection-iff-in-scope] scope != nil && result1 == nil ==> result0 != nil &&
+//@        (inScope(scope, Request) ==> result0.reqmod == mod && typeis(mod, martian.RequestModifier)) && (!inScope(scope, Request) ==> result0.reqmod == nil)
+//@   ensures[response-projection-iff-in-scope] scope != nil && result1 == nil ==>
+//@        (inScope(scope, Response) ==> result0.resmod == mod && typeis(mod, martian.ResponseModifier)) && (!inScope(scope, Response) ==> result0.resmod == nil)
+//@   ensures[unimplemented-or-unknown-scope-is-rejected] scope != nil &&
+//@        ((inScope(scope, Request) && !typeis(mod, martian.RequestModifier)) || (inScope(scope, Response) && !typeis(mod, martian.ResponseModifier)) ||
+//@         (exists i int :: 0 <= i && i < len(scope) && scope[i] != Request && scope[i] != Response)) ==> result1 != nil
+//@   loop 0 invariant result != nil && !wasAllocated(result)
+//@   loop 0 invariant forall k int :: 0 <= k && k <= rangeindex && k < len(scope) ==> (scope[k] == Request && typeis(mod, martian.RequestModifier)) || (scope[k] == Response && typeis(mod, martian.ResponseModifier))
+//@   loop 0 invariant (exists k int :: 0 <= k && k <= rangeindex && k < len(scope) && scope[k] == Request) ==> result.reqmod == mod
+//@   loop 0 invariant !(exists k int :: 0 <= k && k <= rangeindex && k < len(scope) && scope[k] == Request) ==> result.reqmod == nil
+//@   loop 0 invariant (exists k int :: 0 <= k && k <= rangeindex && k < len(scope) && scope[k] == Response) ==> result.resmod == mod
+//@   loop 0 invariant !(exists k int :: 0 <= k && k <= rangeindex && k < len(scope) && scope[k] == Response) ==> result.resmod == nil
+
+//@ func (*Result).RequestModifier
+//@   serves C12
+//@   requires r != nil
+//@   modifies nothing
+//@   ensures result == r.reqmod
+//@ func (*Result).ResponseModifier
+//@   serves C12
+//@   requires r != nil
+//@   modifies nothing
+//@   ensures result == r.resmod
